@@ -21,6 +21,7 @@ import (
 
 	"perun.network/go-perun/channel"
 	"perun.network/go-perun/log"
+	"perun.network/go-perun/simhook"
 	"perun.network/go-perun/wallet"
 	"perun.network/go-perun/wire"
 	pcontext "polycry.pt/poly-go/context"
@@ -268,6 +269,7 @@ func (c *Channel) handleUpdateReq(
 	req ChannelUpdateProposal,
 	uh UpdateHandler,
 ) {
+	simhook.Yield("client.handleUpdateReq.beforeLock")
 	c.machMtx.Lock() // Lock machine while update is in progress.
 	defer c.machMtx.Unlock()
 
@@ -405,6 +407,7 @@ func (c *Channel) enableNotifyUpdate(ctx context.Context) error {
 	if c.onUpdate != nil {
 		c.onUpdate(from, to)
 	}
+	simhook.Yield("client.enableNotifyUpdate.beforePublish")
 
 	if err := c.statesPub.Publish(ctx, c.machine.CurrentTX()); err != nil {
 		c.Log().WithField("Version", c.state().Version).Errorf("publishing state to watcher: %w", err)
